@@ -57,11 +57,17 @@ pub struct DescSpec {
     pub sections: Vec<SecSpec>,
     pub session_version: u64,
     pub ice: bool,
+    /// section indices left OUT of the `a=group:BUNDLE` line (a partial group)
+    pub bundle_omit: Vec<usize>,
+    /// `a=setup` written at session level (WebRTC mode)
+    pub session_setup: Option<&'static str>,
+    /// raw extra session-level lines (complete, e.g. "b=AS:128")
+    pub session_extra: Vec<String>,
 }
 
 impl DescSpec {
     pub fn new(sections: Vec<SecSpec>) -> Self {
-        DescSpec { bundle: sections.len() > 1, fp: FpSpec::A, session_level_fp: false, sections, session_version: 2, ice: true }
+        DescSpec { bundle: sections.len() > 1, fp: FpSpec::A, session_level_fp: false, sections, session_version: 2, ice: true, bundle_omit: vec![], session_setup: None, session_extra: vec![] }
     }
 }
 
@@ -101,13 +107,15 @@ pub fn render(mode: &TransportMode, d: &DescSpec) -> String {
     if !webrtc { o.push_str("c=IN IP4 127.0.0.1\r\n"); }
     o.push_str("t=0 0\r\n");
     if d.bundle {
-        let mids: Vec<String> = d.sections.iter().filter_map(|s| s.mid.clone()).collect();
+        let mids: Vec<String> = d.sections.iter().enumerate().filter(|(i, _)| !d.bundle_omit.contains(i)).filter_map(|(_, s)| s.mid.clone()).collect();
         o.push_str(&format!("a=group:BUNDLE {}\r\n", mids.join(" ")));
     }
     if webrtc {
         o.push_str("a=msid-semantic: WMS\r\n");
         if d.session_level_fp { for l in fp_lines(&d.fp) { o.push_str(&l); o.push_str("\r\n"); } }
+        if let Some(su) = d.session_setup { o.push_str(&format!("a=setup:{su}\r\n")); }
     }
+    for l in &d.session_extra { o.push_str(l); o.push_str("\r\n"); }
     for (i, s) in d.sections.iter().enumerate() {
         let rtp = matches!(s.kind, MediaKind::Audio | MediaKind::Video);
         let proto = match (s.kind, mode) {
@@ -141,7 +149,10 @@ pub fn render(mode: &TransportMode, d: &DescSpec) -> String {
         if s.rtcp_mux && s.kind != MediaKind::Image { o.push_str("a=rtcp-mux\r\n"); }
         if s.kind == MediaKind::Application { o.push_str("a=sctp-port:5000\r\n"); }
         if rtp {
-            for (id, uri) in &s.extmaps { o.push_str(&format!("a=extmap:{id} {uri}\r\n")); }
+            for (id, uri) in &s.extmaps {
+                if id.is_empty() && uri.is_empty() { o.push_str("a=extmap\r\n"); } // a value-less attribute among the others
+                else { o.push_str(&format!("a=extmap:{id} {uri}\r\n")); }
+            }
             for c in &s.codecs {
                 if c.rtpmap {
                     if c.channels == 0 { o.push_str(&format!("a=rtpmap:{} {}/{}\r\n", c.pt, c.name, c.clock)); }
